@@ -151,6 +151,8 @@ class State:
         # record  const == value  facts for cheap simplification
         if z3.is_eq(c):
             a, b = c.arg(0), c.arg(1)
+            if z3.is_bv_value(a) or z3.is_true(a) or z3.is_false(a):
+                a, b = b, a
             if z3.is_const(a) and a.decl().kind() == z3.Z3_OP_UNINTERPRETED and (z3.is_bv_value(b) or z3.is_true(b) or z3.is_false(b)):
                 self.known[a.get_id()] = (a, b)
         elif z3.is_const(c) and c.decl().kind() == z3.Z3_OP_UNINTERPRETED:
@@ -313,6 +315,8 @@ class Executor:
         raise Unencodable(f"field {idx} of {v!r}")
 
     def index_value(self, st, v, idx):
+        if isinstance(v, Seq) and isinstance(idx, int) and v.kind == "slice" and idx < len(v.items):
+            return st.heap[v.items[idx]]
         if isinstance(v, Agg) and isinstance(idx, int):
             if idx in v.fields:
                 return v.fields[idx]
@@ -374,7 +378,11 @@ class Executor:
             elif k == "constindex":
                 if pr[3]:
                     raise Unencodable("from-end const index")
-                path = path + (("i", pr[1]),)
+                cur = self.read(st, cell, path)
+                if isinstance(cur, Seq) and cur.kind == "slice" and pr[1] < len(cur.items):
+                    cell, path = cur.items[pr[1]], ()
+                else:
+                    path = path + (("i", pr[1]),)
             elif k == "index":
                 iv = self.read(st, frame.cell(pr[1]), ())
                 e = st.simp(iv.e)
@@ -644,6 +652,14 @@ class Executor:
             if rv[1] == "Neg":
                 v = self.as_prim(v)
                 return Prim(v.ty, z3.fpNeg(v.e) if v.ty == "f64" else -v.e)
+            if rv[1] == "PtrMetadata":
+                tgt = v
+                if isinstance(v, Ref) or (isinstance(v, Lazy) and is_ref(v.ty)):
+                    c, p = self.deref_target(st, v)
+                    tgt = self.read(st, c, p)
+                if isinstance(tgt, Seq):
+                    return Prim("usize", z3.BitVecVal(len(tgt.items), 64))
+                raise Unencodable(f"PtrMetadata of {tgt!r} (a bounded list must be supplied by the lemma)")
             raise Unencodable(f"unop {rv[1]}")
         if k == "cast":
             return self.cast(st, rv[1], self.operand(st, frame, rv[2]), rv[3])
@@ -1618,7 +1634,7 @@ def _rx(p):
 
 DEFAULT_MODELS = [
     (_rx(r"^(std::hint::|core::hint::)?must_use::<"), m_identity),
-    (_rx(r"^<Vec<.*> as (std::ops::)?Deref(Mut)?>::deref(_mut)?$"), m_vec_deref),
+    (_rx(r"^<Vec<.*> as (std::ops::)?Deref(Mut)?>::deref(_mut)?$|^Vec::<.*>::as_slice$"), m_vec_deref),
     (_rx(r"^core::slice::<impl \[.*\]>::split_last$"), m_slice_split_last),
     (_rx(r"^core::slice::<impl \[.*\]>::iter$|^BTreeMap::<.*>::iter$"), m_slice_iter),
     (_rx(r"Iter<.*> as Iterator>::try_for_each::<"), m_iter_try_for_each),
